@@ -1,5 +1,6 @@
 import PotasscoVerif.Drv.Calls
 import PotasscoVerif.Model.TheoryData
+import PotasscoVerif.Model.TheoryPrint
 namespace PotasscoVerif.Drv
 open PotasscoVerif.TheoryData
 
@@ -39,7 +40,7 @@ def tdStep (d : TD) (t : String) : Option (Option TD) :=   -- outer none: bad op
   | _ => none
 
 def tdLoop (W : Nat) : TD → List String → List String → List String
-  | d, [], acc => (s!"V[{showVisit d false}]C[{showVisit d true}]" :: acc).reverse
+  | d, [], acc => (s!"V[{showVisit d false}]C[{showVisit d true}]P[{";".intercalate ((d.printTermsBelow W ++ d.printAtoms).map showCall)}]" :: acc).reverse
   | d, t :: ts, acc =>
     match tdStep d t with
     | none => ("bad-op" :: acc).reverse
